@@ -279,12 +279,19 @@ fn write_keys_map_to_disk(keys: HashMap<String, u64>) {
     let keys_file_name = get_keys_map_file_name();
     log::debug!("Will write the keys {} from disk", keys_file_name);
 
-    let mut keys_file = OpenOptions::new()
-        .create(true)
-        .write(true)
-        .open(keys_file_name)
-        .unwrap();
-    bincode::serialize_into(&mut keys_file, &keys.clone()).unwrap();
+    // Write a new file and move it over the old one: a process killed half way leaves the
+    // previous (complete) key map instead of a truncated file that cannot be loaded at start-up
+    let tmp_file_name = format!("{}.tmp", keys_file_name);
+    {
+        let mut keys_file = OpenOptions::new()
+            .create(true)
+            .write(true)
+            .truncate(true)
+            .open(&tmp_file_name)
+            .unwrap();
+        bincode::serialize_into(&mut keys_file, &keys.clone()).unwrap();
+    }
+    fs::rename(&tmp_file_name, &keys_file_name).unwrap();
 }
 
 fn get_invalidate_file_name() -> String {
